@@ -214,6 +214,13 @@ PROGRAMS = [
     "def t(a: bool, b: bool) -> bool:\n\treturn True",
     "def t(a: Qint[4]) -> bool:\n\treturn a != 5 and a[0]",
     "def t(k: Parameter[Qint[2]], a: Qint[2]) -> bool:\n\treturn a != k",
+    # functions whose OPTIMISED definition list keeps intermediate symbols (common sub-expressions), return bits equal to an intermediate, 3-ary intermediates
+    "def t(a: Qint[2], b: Qint[2]) -> Qint[2]:\n\treturn a + b - 3",
+    "def t(a: Qint[2]) -> Qint[2]:\n\treturn a + 3",
+    "def t(a: Qint[2], b: bool) -> Qint[2]:\n\treturn a + 1 if b else a",
+    "def t(a: Qint[2], b: Qint[2]) -> Qint[4]:\n\treturn a * b",
+    "def t(a: Qint[2], b: Qint[2]) -> Qint[4]:\n\treturn Qint4(0) + a + b - 3",
+    "def t(a: bool, b: bool, c: bool) -> Tuple[bool, bool, bool]:\n\td = a ^ b ^ c\n\treturn (d, d and a, d or (b and c))",
 ]
 
 
